@@ -130,5 +130,9 @@ func Average(v reflect.Value) (float64, error) {
 		sum += n
 	}
 
+	if math.IsInf(sum, 0) || math.IsNaN(sum) {
+		return 0, fmt.Errorf("cannot call average: the result is out of range")
+	}
+
 	return sum / float64(v.Len()), nil
 }
